@@ -101,6 +101,9 @@ def run(repo, rep, tier):
         "isinstance(other, K) must be evaluated before any attribute of `other` is read; __ne__ negates ==; numeq has "
         "the NaN/inf/tolerance shape its docstring states. Decides which fields == can see, not the values."
     )
+    rep.extra["explanation"] += " " + (
+        'Later additions: a proper slice does not count as the whole field; the isinstance class is the class itself; (R9.5) numeq decided as a decision table over IEEE classes by float-class interpretation; (R9.6) serialised quantities take part in == and UserFcn.__eq__ depends on name and expr on every path (guard statements included); (R9.7) mismatch flags are monotone.'
+    )
     rep.not_decided += ["that copy()/pickle/JSON clones are equal (needs their content)", "UserFcn equality by code object"]
     prims, _ = primitives(repo)
     models = build_models(repo)
